@@ -894,6 +894,8 @@ def str_method(it, s, name):
         def f(chars=None):
             if chars is not None:
                 raise Unsupported("strip(chars)")
+            if s.sx in getattr(it.ctx, "known_stripped", ()):
+                return s          # the input grammar says this value has no leading/trailing whitespace
             fn = "py_" + name
             it.ctx.uf(fn, ["String"], "String")
             r = smt.app(fn, "String", s, bk=bk)
@@ -937,6 +939,8 @@ def str_method(it, s, name):
         return mk(f)
     if name in ("lower", "upper"):
         def f():
+            if s.sx in getattr(it.ctx, "known_stripped", ()):
+                return s          # the input grammar says this value has no leading/trailing whitespace
             fn = "py_" + name
             it.ctx.uf(fn, ["String"], "String")
             r = smt.app(fn, "String", s, bk=bk)
